@@ -6,5 +6,6 @@ KindsB == <<"bld">>
 KindsC == <<"cmp">>
 KindsAB == <<"asm", "bld">>
 KindsABC == <<"asm", "bld", "cmp">>
-KnownBoth == {"finalize:own-error-handler-bypassed", "finalize:own-logger-bypassed"}
+KnownFin == {"finalize:own-error-handler-bypassed", "finalize:own-logger-bypassed"}
+KnownAll == KnownFin \cup {"emit_op_array:more-than-6-operands:unreported"}
 =============================================================================
